@@ -13,7 +13,7 @@ if args and args[0] == "-j":
 items = [("multi", m) for m in benign.MULTI] + [("rename", r) for r in benign.RENAMES]
 if args:
     items = [it for it in items if any(a in it[1][0] for a in args)]
-run.SCRATCH = "/tmp/wt/benign-%d" % os.getpid()
+run.SCRATCH = "/tmp/wtpriv/benign-%d" % os.getpid()
 q = queue.Queue()
 for it in items:
     q.put(it)
